@@ -31,6 +31,7 @@ import (
 	"testing"
 	"time"
 
+	"github.com/honeycombio/refinery/config"
 	"github.com/honeycombio/refinery/internal/verifkit"
 	"github.com/honeycombio/refinery/types"
 )
@@ -175,6 +176,7 @@ func (p c14Path) memoizesSelectedFields() bool {
 }
 
 type c14Witness struct {
+	Step       string         `json:"step,omitempty"`
 	Prefix     string         `json:"dataset_prefix"`
 	Targets    []string       `json:"sampler_targets"`
 	APIKey     string         `json:"api_key"`
@@ -212,360 +214,394 @@ func TestVerif_C14(t *testing.T) {
 	dir := t.TempDir()
 
 	run.Cases("destination", run.N(500, 8000), func(ci int, rng *verifkit.Rand) {
-		prefix := verifkit.Pick(rng, c14Prefixes...)
+		prefix1 := verifkit.Pick(rng, c14Prefixes...)
 		apiKey, class := c14GenKey(rng)
 		dataset := verifkit.Pick(rng, c14DatasetNames...)
 		env := verifkit.Pick(rng, c14EnvNames...)
 		path := verifkit.Pick(rng, c14BatchMsgp, c14BatchMsgp, c14BatchJSON, c14EventJSON, c14EventMsgp, c14PeerBatch, c14OTLP)
 
-		// targets: the three names this request could resolve to are each present with p=1/2,
-		// plus unrelated ones, plus __default__
-		prefixed := dataset
-		if prefix != "" {
-			prefixed = prefix + "." + dataset
-		}
-		cands := []string{env, dataset, prefixed}
-		for i := 0; i < 3; i++ {
-			cands = append(cands, verifkit.Pick(rng, c14EnvNames...), verifkit.Pick(rng, c14DatasetNames...))
-		}
-		seen := map[string]bool{"__default__": true}
-		targets := []string{"__default__"}
-		for i, c := range cands {
-			p := 0.3
-			if i < 3 {
-				p = 0.55
+		var cfg config.Config
+		// one phase = (re)configure, send the trace, decide, compare. step "" = freshly
+		// loaded configuration; "/after-reload" = the files were rewritten and the SAME
+		// fileConfig object (the one the routers hold) was told to Reload.
+		phase := func(prefix, step string) {
+			viol := func(sig, what string, witness any) { run.Violation(sig+step, what, witness) }
+			// targets: the three names this request could resolve to are each present with p=1/2,
+			// plus unrelated ones, plus __default__
+			prefixed := dataset
+			if prefix != "" {
+				prefixed = prefix + "." + dataset
 			}
-			if !seen[c] && rng.Chance(p) && len(targets) < 7 {
-				seen[c] = true
-				targets = append(targets, c)
+			cands := []string{env, dataset, prefixed}
+			for i := 0; i < 3; i++ {
+				cands = append(cands, verifkit.Pick(rng, c14EnvNames...), verifkit.Pick(rng, c14DatasetNames...))
 			}
-		}
-		verifkit.Shuffle(rng, targets)
-		var samplers []c14Sampler
-		byTarget := map[string]c14Sampler{}
-		for i, tg := range targets {
-			s := c14Sampler{Target: tg, Idx: i, Tag: fmt.Sprintf("%d%s", i, rng.Hex(4)), Root: rng.Chance(0.4), Down: rng.Chance(0.5)}
-			samplers = append(samplers, s)
-			byTarget[tg] = s
-		}
-		rules := c14RulesYAML(samplers)
-		cfg, err := b3LoadConfig(dir, b3MainConfig(prefix, []string{"trace.trace_id", "traceId"}, []string{"trace.parent_id", "parentId"}), rules)
-		if cfg == nil {
-			t.Fatalf("C14 harness: generated configuration rejected: %v\n%s", err, rules)
-		}
-		b3UseConfig(b, cfg)
-		b.Env.Set(func(key string) (string, string, error) { return env, "", nil })
+			seen := map[string]bool{"__default__": true}
+			targets := []string{"__default__"}
+			for i, c := range cands {
+				p := 0.3
+				if i < 3 {
+					p = 0.55
+				}
+				if !seen[c] && rng.Chance(p) && len(targets) < 7 {
+					seen[c] = true
+					targets = append(targets, c)
+				}
+			}
+			verifkit.Shuffle(rng, targets)
+			var samplers []c14Sampler
+			byTarget := map[string]c14Sampler{}
+			for i, tg := range targets {
+				s := c14Sampler{Target: tg, Idx: i, Tag: fmt.Sprintf("%d%s", i, rng.Hex(4)), Root: rng.Chance(0.4), Down: rng.Chance(0.5)}
+				samplers = append(samplers, s)
+				byTarget[tg] = s
+			}
+			rules := c14RulesYAML(samplers)
+			mainYAML := b3MainConfig(prefix, []string{"trace.trace_id", "traceId"}, []string{"trace.parent_id", "parentId"})
+			if step == "" {
+				var err error
+				cfg, err = b3LoadConfig(dir, mainYAML, rules)
+				if cfg == nil {
+					t.Fatalf("C14 harness: generated configuration rejected: %v\n%s", err, rules)
+				}
+				b3UseConfig(b, cfg)
+			} else {
+				if err := b3WriteConfig(dir, mainYAML, rules); err != nil {
+					t.Fatalf("C14 harness: %v", err)
+				}
+				if err := cfg.Reload(); err != nil {
+					t.Fatalf("C14 harness: Reload of a valid generated configuration failed: %v\n%s\n%s", err, mainYAML, rules)
+				}
+				if got := cfg.GetDatasetPrefix(); got != prefix {
+					// whether a reload applies a change is C27's subject; without it there is no new configuration to check against
+					run.Count("reload_did_not_apply_prefix", 1)
+					return
+				}
+				run.Count("reload_steps", 1)
+			}
+			b.Env.Set(func(key string) (string, string, error) { return env, "", nil })
 
-		// the documented selection
-		var expTargets []string
-		if class.Classic || class.Open {
-			expTargets = append(expTargets, prefixed)
-		}
-		if !class.Classic || class.Open {
-			expTargets = append(expTargets, env)
-		}
-		var expSamplers []c14Sampler
-		for _, tg := range expTargets {
-			s, ok := byTarget[tg]
-			if !ok {
-				s = byTarget["__default__"]
+			// the documented selection
+			var expTargets []string
+			if class.Classic || class.Open {
+				expTargets = append(expTargets, prefixed)
 			}
-			expSamplers = append(expSamplers, s)
-		}
-		resolves := "default"
-		if _, ok := byTarget[expTargets[0]]; ok {
-			switch {
-			case !class.Classic:
-				resolves = "environment"
-			case prefix != "":
-				resolves = "prefixed-dataset"
-			default:
-				resolves = "dataset"
+			if !class.Classic || class.Open {
+				expTargets = append(expTargets, env)
 			}
-		}
+			var expSamplers []c14Sampler
+			for _, tg := range expTargets {
+				s, ok := byTarget[tg]
+				if !ok {
+					s = byTarget["__default__"]
+				}
+				expSamplers = append(expSamplers, s)
+			}
+			resolves := "default"
+			if _, ok := byTarget[expTargets[0]]; ok {
+				switch {
+				case !class.Classic:
+					resolves = "environment"
+				case prefix != "":
+					resolves = "prefixed-dataset"
+				default:
+					resolves = "dataset"
+				}
+			}
 
-		// the trace: the expected sampler(s)' fields always, decoy samplers' fields sometimes
-		nspans := rng.Range(1, 3)
-		rootAt := rng.Intn(nspans)
-		traceID := "t" + rng.Hex(16)
-		carried := map[int]bool{}
-		for _, s := range expSamplers {
-			carried[s.Idx] = true
-		}
-		for _, s := range samplers {
-			if rng.Chance(0.5) {
+			// the trace: the expected sampler(s)' fields always, decoy samplers' fields sometimes
+			nspans := rng.Range(1, 3)
+			rootAt := rng.Intn(nspans)
+			traceID := "t" + rng.Hex(16)
+			carried := map[int]bool{}
+			for _, s := range expSamplers {
 				carried[s.Idx] = true
 			}
-		}
-		spanFields := make([][]E3KV, nspans)
-		var spanDesc []string
-		for i := 0; i < nspans; i++ {
-			kvs := []E3KV{KV("verif.id", VStr(fmt.Sprintf("s%d", i))), KV("noise", VInt(int64(rng.Intn(100))))}
-			if path != c14OTLP {
-				kvs = append(kvs, KV("trace.trace_id", VStr(traceID)))
-				if i != rootAt {
-					kvs = append(kvs, KV("trace.parent_id", VStr("parent")))
-				}
-			}
 			for _, s := range samplers {
-				if !carried[s.Idx] {
-					continue
-				}
-				// the condition field and the key field live on the LAST span (not
-				// necessarily the root); root. fields on the root
-				if i == nspans-1 {
-					kvs = append(kvs, KV(s.f(), VStr(s.v())), KV(s.k(), VStr("kv-"+s.Tag)))
-				}
-				if i == rootAt {
-					kvs = append(kvs, KV(s.g(), VBool(true)), KV(s.r(), VStr("rv-"+s.Tag)))
+				if rng.Chance(0.5) {
+					carried[s.Idx] = true
 				}
 			}
-			verifkit.Shuffle(rng, kvs)
-			spanFields[i] = kvs
-			var names []string
-			for _, kv := range kvs {
-				names = append(names, kv.Key)
+			spanFields := make([][]E3KV, nspans)
+			var spanDesc []string
+			for i := 0; i < nspans; i++ {
+				kvs := []E3KV{KV("verif.id", VStr(fmt.Sprintf("s%d", i))), KV("noise", VInt(int64(rng.Intn(100))))}
+				if path != c14OTLP {
+					kvs = append(kvs, KV("trace.trace_id", VStr(traceID)))
+					if i != rootAt {
+						kvs = append(kvs, KV("trace.parent_id", VStr("parent")))
+					}
+				}
+				for _, s := range samplers {
+					if !carried[s.Idx] {
+						continue
+					}
+					// the condition field and the key field live on the LAST span (not
+					// necessarily the root); root. fields on the root
+					if i == nspans-1 {
+						kvs = append(kvs, KV(s.f(), VStr(s.v())), KV(s.k(), VStr("kv-"+s.Tag)))
+					}
+					if i == rootAt {
+						kvs = append(kvs, KV(s.g(), VBool(true)), KV(s.r(), VStr("rv-"+s.Tag)))
+					}
+				}
+				verifkit.Shuffle(rng, kvs)
+				spanFields[i] = kvs
+				var names []string
+				for _, kv := range kvs {
+					names = append(names, kv.Key)
+				}
+				spanDesc = append(spanDesc, strings.Join(names, ","))
 			}
-			spanDesc = append(spanDesc, strings.Join(names, ","))
-		}
 
-		w := c14Witness{Prefix: prefix, Targets: targets, APIKey: apiKey, KeyClass: class.Name, Dataset: dataset, Env: env, Path: path.String(),
-			Expected: expTargets, Rules: rules, Spans: spanDesc}
-		for _, s := range expSamplers {
-			w.ExpSampler = append(w.ExpSampler, s.Target)
-		}
+			w := c14Witness{Step: step, Prefix: prefix, Targets: targets, APIKey: apiKey, KeyClass: class.Name, Dataset: dataset, Env: env, Path: path.String(),
+				Expected: expTargets, Rules: rules, Spans: spanDesc}
+			for _, s := range expSamplers {
+				w.ExpSampler = append(w.ExpSampler, s.Target)
+			}
 
-		// ---- ingestion ----
-		cap.Take()
-		hop.Take()
-		b.Log.Reset()
-		sendBatch := func(enc E3Encoding) string {
-			var items []E3BatchItem
-			for i := range spanFields {
-				d := VMap(spanFields[i]...)
-				items = append(items, E3BatchItem{Data: &d})
+			// ---- ingestion ----
+			cap.Take()
+			hop.Take()
+			b.Log.Reset()
+			sendBatch := func(enc E3Encoding) string {
+				var items []E3BatchItem
+				for i := range spanFields {
+					d := VMap(spanFields[i]...)
+					items = append(items, E3BatchItem{Data: &d})
+				}
+				req, err := e3BatchReq(E3Incoming, enc, dataset, apiKey, items)
+				if err != nil {
+					return err.Error()
+				}
+				resp := b.Serve(req)
+				if resp.Status != 200 || strings.Contains(resp.Body, `"error"`) || resp.Panicked != "" {
+					return fmt.Sprintf("batch: status %d body %q panic %q", resp.Status, resp.Body, resp.Panicked)
+				}
+				return ""
 			}
-			req, err := e3BatchReq(E3Incoming, enc, dataset, apiKey, items)
-			if err != nil {
-				return err.Error()
-			}
-			resp := b.Serve(req)
-			if resp.Status != 200 || strings.Contains(resp.Body, `"error"`) || resp.Panicked != "" {
-				return fmt.Sprintf("batch: status %d body %q panic %q", resp.Status, resp.Body, resp.Panicked)
-			}
-			return ""
-		}
-		problem := ""
-		switch path {
-		case c14BatchMsgp:
-			problem = sendBatch(E3Msgpack)
-		case c14BatchJSON:
-			problem = sendBatch(E3JSON)
-		case c14EventJSON, c14EventMsgp:
-			enc := E3JSON
-			if path == c14EventMsgp {
-				enc = E3Msgpack
-			}
-			for i := range spanFields {
-				req, err := e3EventReq(E3Incoming, enc, dataset, apiKey, VMap(spanFields[i]...), -1, "")
+			problem := ""
+			switch path {
+			case c14BatchMsgp:
+				problem = sendBatch(E3Msgpack)
+			case c14BatchJSON:
+				problem = sendBatch(E3JSON)
+			case c14EventJSON, c14EventMsgp:
+				enc := E3JSON
+				if path == c14EventMsgp {
+					enc = E3Msgpack
+				}
+				for i := range spanFields {
+					req, err := e3EventReq(E3Incoming, enc, dataset, apiKey, VMap(spanFields[i]...), -1, "")
+					if err != nil {
+						problem = err.Error()
+						break
+					}
+					if resp := b.Serve(req); resp.Status != 200 || resp.Panicked != "" {
+						problem = fmt.Sprintf("event: status %d body %q panic %q", resp.Status, resp.Body, resp.Panicked)
+						break
+					}
+				}
+			case c14PeerBatch:
+				b.Sharder.SetOwner(func(string) string { return hop.URL() })
+				problem = sendBatch(E3Msgpack)
+				ok := problem != "" || hop.Await(nspans, 20*time.Second)
+				b.Sharder.SetOwner(nil)
+				if !ok {
+					run.Inconclusive("peer hop: forwarded events did not arrive within 20s")
+					return
+				}
+				if problem == "" {
+					for _, r := range hop.Take() {
+						if resp := hop.Replay(b, r); resp.Status != 200 || strings.Contains(resp.Body, `"error"`) || resp.Panicked != "" {
+							problem = fmt.Sprintf("peer replay: status %d body %q", resp.Status, resp.Body)
+						}
+					}
+				}
+			case c14OTLP:
+				var sps []E3Span
+				tid := []byte(traceID[1:17])
+				for i := range spanFields {
+					s := E3Span{TraceID: tid, SpanID: []byte{byte(i + 1), 2, 3, 4, 5, 6, 7, 8}, Name: "op", StartNs: 1_700_000_000_000_000_000, EndNs: 1_700_000_001_000_000_000}
+					if i != rootAt {
+						s.ParentID = []byte{9, 9, 9, 9, 9, 9, 9, 9}
+					}
+					s.Attrs = spanFields[i]
+					sps = append(sps, s)
+				}
+				// husky: the dataset of a classic key is the x-honeycomb-dataset header; for
+				// other keys the service name
+				req, err := e3OTLPReq("/v1/traces", "application/protobuf", apiKey, dataset, e3OTLPTraces(dataset, sps))
 				if err != nil {
 					problem = err.Error()
 					break
 				}
 				if resp := b.Serve(req); resp.Status != 200 || resp.Panicked != "" {
-					problem = fmt.Sprintf("event: status %d body %q panic %q", resp.Status, resp.Body, resp.Panicked)
-					break
+					problem = fmt.Sprintf("otlp: status %d body %q panic %q", resp.Status, resp.Body, resp.Panicked)
 				}
 			}
-		case c14PeerBatch:
-			b.Sharder.SetOwner(func(string) string { return hop.URL() })
-			problem = sendBatch(E3Msgpack)
-			ok := problem != "" || hop.Await(nspans, 20*time.Second)
-			b.Sharder.SetOwner(nil)
-			if !ok {
-				run.Inconclusive("peer hop: forwarded events did not arrive within 20s")
+			if problem != "" {
+				// the request was not accepted: nothing is sampled, nothing to check here
+				// (acceptance of odd keys / datasets belongs to C23/C24)
+				run.Count("request_not_accepted", 1)
+				if ci < 50 {
+					t.Logf("C14 case %d not accepted: %s", ci, problem)
+				}
 				return
 			}
-			if problem == "" {
-				for _, r := range hop.Take() {
-					if resp := hop.Replay(b, r); resp.Status != 200 || strings.Contains(resp.Body, `"error"`) || resp.Panicked != "" {
-						problem = fmt.Sprintf("peer replay: status %d body %q", resp.Status, resp.Body)
+			got := cap.Take()
+			if len(got) != nspans {
+				viol("C14/harness/spans-not-captured", fmt.Sprintf("%d of %d spans reached the collector", len(got), nspans), w)
+				return
+			}
+			spans := make([]*types.Span, len(got))
+			for i, c := range got {
+				spans[i] = c.Span
+			}
+			if path == c14OTLP && class.Classic && spans[0].Dataset != dataset {
+				// husky chose another dataset name than the header: the documented selection is
+				// in terms of the dataset Refinery recorded
+				run.Count("otlp_dataset_differs_from_header", 1)
+				return
+			}
+
+			allowedIdx := map[int]c14Sampler{}
+			for _, s := range expSamplers {
+				allowedIdx[s.Idx] = s
+			}
+			via := func(s c14Sampler) string {
+				switch s.Target {
+				case "__default__":
+					return "default"
+				case env:
+					if s.Target == prefixed {
+						return "environment-or-dataset"
 					}
+					return "environment"
+				case prefixed:
+					if prefix != "" {
+						return "prefixed-dataset"
+					}
+					return "dataset"
+				case dataset:
+					return "unprefixed-dataset"
 				}
+				return "unrelated"
 			}
-		case c14OTLP:
-			var sps []E3Span
-			tid := []byte(traceID[1:17])
-			for i := range spanFields {
-				s := E3Span{TraceID: tid, SpanID: []byte{byte(i + 1), 2, 3, 4, 5, 6, 7, 8}, Name: "op", StartNs: 1_700_000_000_000_000_000, EndNs: 1_700_000_001_000_000_000}
-				if i != rootAt {
-					s.ParentID = []byte{9, 9, 9, 9, 9, 9, 9, 9}
-				}
-				s.Attrs = spanFields[i]
-				sps = append(sps, s)
-			}
-			// husky: the dataset of a classic key is the x-honeycomb-dataset header; for
-			// other keys the service name
-			req, err := e3OTLPReq("/v1/traces", "application/protobuf", apiKey, dataset, e3OTLPTraces(dataset, sps))
-			if err != nil {
-				problem = err.Error()
-				break
-			}
-			if resp := b.Serve(req); resp.Status != 200 || resp.Panicked != "" {
-				problem = fmt.Sprintf("otlp: status %d body %q panic %q", resp.Status, resp.Body, resp.Panicked)
-			}
-		}
-		if problem != "" {
-			// the request was not accepted: nothing is sampled, nothing to check here
-			// (acceptance of odd keys / datasets belongs to C23/C24)
-			run.Count("request_not_accepted", 1)
-			if ci < 50 {
-				t.Logf("C14 case %d not accepted: %s", ci, problem)
-			}
-			return
-		}
-		got := cap.Take()
-		if len(got) != nspans {
-			run.Violation("C14/harness/spans-not-captured", fmt.Sprintf("%d of %d spans reached the collector", len(got), nspans), w)
-			return
-		}
-		spans := make([]*types.Span, len(got))
-		for i, c := range got {
-			spans[i] = c.Span
-		}
-		if path == c14OTLP && class.Classic && spans[0].Dataset != dataset {
-			// husky chose another dataset name than the header: the documented selection is
-			// in terms of the dataset Refinery recorded
-			run.Count("otlp_dataset_differs_from_header", 1)
-			return
-		}
 
-		allowedIdx := map[int]c14Sampler{}
-		for _, s := range expSamplers {
-			allowedIdx[s.Idx] = s
-		}
-		via := func(s c14Sampler) string {
-			switch s.Target {
-			case "__default__":
-				return "default"
-			case env:
-				if s.Target == prefixed {
-					return "environment-or-dataset"
-				}
-				return "environment"
-			case prefixed:
-				if prefix != "" {
-					return "prefixed-dataset"
-				}
-				return "dataset"
-			case dataset:
-				return "unprefixed-dataset"
-			}
-			return "unrelated"
-		}
-
-		// ---- ingestion-time extraction (before anything else touches the payloads) ----
-		if path.memoizesSelectedFields() {
-			for i, sp := range spans {
-				memo := sp.Data.GetMemoizedFields()
-				owner := map[int]bool{}
-				for name := range memo {
-					for _, s := range samplers {
+			// ---- ingestion-time extraction (before anything else touches the payloads) ----
+			if path.memoizesSelectedFields() {
+				for i, sp := range spans {
+					memo := sp.Data.GetMemoizedFields()
+					owner := map[int]bool{}
+					for name := range memo {
+						for _, s := range samplers {
+							for _, f := range s.reads() {
+								if f == name {
+									owner[s.Idx] = true
+								}
+							}
+						}
+					}
+					for idx := range owner {
+						if _, ok := allowedIdx[idx]; !ok {
+							w.Memoized = memo
+							viol("C14/ingestion-extraction/"+path.String()+"/"+class.Name+"/fields-of-"+via(samplers[idx])+"-sampler-extracted",
+								fmt.Sprintf("span %d: ingestion extracted fields of sampler %q, the documented selection is %v", i, samplers[idx].Target, w.ExpSampler), w)
+						}
+					}
+					if len(expSamplers) == 1 {
+						s := expSamplers[0]
+						present := map[string]bool{}
+						id, _ := sp.Data.Get("verif.id").(string)
+						var idx int
+						fmt.Sscanf(id, "s%d", &idx)
+						for _, kv := range spanFields[idx] {
+							present[kv.Key] = true
+						}
 						for _, f := range s.reads() {
-							if f == name {
-								owner[s.Idx] = true
+							if _, ok := memo[f]; present[f] && !ok {
+								w.Memoized = memo
+								viol("C14/ingestion-extraction/"+path.String()+"/"+class.Name+"/selected-sampler-field-not-extracted",
+									fmt.Sprintf("span %s: field %s of the selected sampler %q is in the payload but was not extracted at ingestion", id, f, s.Target), w)
 							}
 						}
 					}
 				}
-				for idx := range owner {
-					if _, ok := allowedIdx[idx]; !ok {
-						w.Memoized = memo
-						run.Violation("C14/ingestion-extraction/"+path.String()+"/"+class.Name+"/fields-of-"+via(samplers[idx])+"-sampler-extracted",
-							fmt.Sprintf("span %d: ingestion extracted fields of sampler %q, the documented selection is %v", i, samplers[idx].Target, w.ExpSampler), w)
-					}
-				}
-				if len(expSamplers) == 1 {
-					s := expSamplers[0]
-					present := map[string]bool{}
-					id, _ := sp.Data.Get("verif.id").(string)
-					var idx int
-					fmt.Sscanf(id, "s%d", &idx)
-					for _, kv := range spanFields[idx] {
-						present[kv.Key] = true
-					}
-					for _, f := range s.reads() {
-						if _, ok := memo[f]; present[f] && !ok {
-							w.Memoized = memo
-							run.Violation("C14/ingestion-extraction/"+path.String()+"/"+class.Name+"/selected-sampler-field-not-extracted",
-								fmt.Sprintf("span %s: field %s of the selected sampler %q is in the payload but was not extracted at ingestion", id, f, s.Target), w)
-						}
-					}
+			}
+
+			// ---- decision ----
+			out := b3Decide(cfg, spans)
+			w.Outcome = out
+			if out.Panic != "" {
+				viol("C14/crash/decision", out.Panic, w)
+				return
+			}
+			run.Nontrivial(class.Name + "|" + resolves + "|" + path.String() + step)
+			run.Count("decisions", 1)
+			if ci < 3 && step == "" {
+				run.Sample(w)
+			}
+
+			// selector = target name before the __default__ fallback
+			okSel := false
+			for _, tg := range expTargets {
+				if out.Selector == tg {
+					okSel = true
 				}
 			}
-		}
+			if !okSel {
+				viol("C14/selector/"+class.Name+"/"+resolves+"-expected",
+					fmt.Sprintf("DetermineSamplerKey answered %q for key class %s, environment %q, dataset %q, prefix %q; documented target %v", out.Selector, class.Name, env, dataset, prefix, expTargets), w)
+			}
 
-		// ---- decision ----
-		out := b3Decide(cfg, spans)
-		w.Outcome = out
-		if out.Panic != "" {
-			run.Violation("C14/crash/decision", out.Panic, w)
-			return
-		}
-		run.Nontrivial(class.Name + "|" + resolves + "|" + path.String())
-		run.Count("decisions", 1)
-		if ci < 3 {
-			run.Sample(w)
-		}
-
-		// selector = target name before the __default__ fallback
-		okSel := false
-		for _, tg := range expTargets {
-			if out.Selector == tg {
-				okSel = true
+			// which sampler ran
+			var ranIdx = -1
+			var fallback bool
+			rest := out.Reason
+			rest = strings.TrimPrefix(rest, "rules/trace/")
+			switch {
+			case strings.HasPrefix(rest, "rule_"):
+				fmt.Sscanf(rest, "rule_%d", &ranIdx)
+			case strings.HasPrefix(rest, "fallback_"):
+				fmt.Sscanf(rest, "fallback_%d", &ranIdx)
+				fallback = true
+			}
+			if ranIdx < 0 || ranIdx >= len(samplers) {
+				viol("C14/selection/"+class.Name+"/unrecognised-reason", "reason "+out.Reason+" names no generated sampler", w)
+				return
+			}
+			ran := samplers[ranIdx]
+			w.RanSampler = ran.Target
+			exp, ok := allowedIdx[ranIdx]
+			if !ok {
+				viol("C14/selection/"+class.Name+"/"+resolves+"-expected/"+via(ran)+"-sampler-ran",
+					fmt.Sprintf("sampler %q decided the trace; the documented selection is %v (key class %s, environment %q, dataset %q, prefix %q)", ran.Target, w.ExpSampler, class.Name, env, dataset, prefix), w)
+				return
+			}
+			if fallback {
+				viol("C14/fields/"+path.String()+"/condition-field-unavailable",
+					fmt.Sprintf("the selected sampler %q ran but its first rule did not match although the trace carries %s=%s (and root.%s): a field it reads was not available", exp.Target, exp.f(), exp.v(), exp.g()), w)
+				return
+			}
+			if exp.Down {
+				if !strings.Contains(out.Key, "kv-"+exp.Tag) {
+					viol("C14/fields/"+path.String()+"/key-span-field-unavailable", fmt.Sprintf("sample key %q lacks the value of %s", out.Key, exp.k()), w)
+				}
+				if !strings.Contains(out.Key, "rv-"+exp.Tag) {
+					viol("C14/fields/"+path.String()+"/key-root-field-unavailable", fmt.Sprintf("sample key %q lacks the value of root.%s", out.Key, exp.r()), w)
+				}
 			}
 		}
-		if !okSel {
-			run.Violation("C14/selector/"+class.Name+"/"+resolves+"-expected",
-				fmt.Sprintf("DetermineSamplerKey answered %q for key class %s, environment %q, dataset %q, prefix %q; documented target %v", out.Selector, class.Name, env, dataset, prefix, expTargets), w)
-		}
-
-		// which sampler ran
-		var ranIdx = -1
-		var fallback bool
-		rest := out.Reason
-		rest = strings.TrimPrefix(rest, "rules/trace/")
-		switch {
-		case strings.HasPrefix(rest, "rule_"):
-			fmt.Sscanf(rest, "rule_%d", &ranIdx)
-		case strings.HasPrefix(rest, "fallback_"):
-			fmt.Sscanf(rest, "fallback_%d", &ranIdx)
-			fallback = true
-		}
-		if ranIdx < 0 || ranIdx >= len(samplers) {
-			run.Violation("C14/selection/"+class.Name+"/unrecognised-reason", "reason "+out.Reason+" names no generated sampler", w)
-			return
-		}
-		ran := samplers[ranIdx]
-		w.RanSampler = ran.Target
-		exp, ok := allowedIdx[ranIdx]
-		if !ok {
-			run.Violation("C14/selection/"+class.Name+"/"+resolves+"-expected/"+via(ran)+"-sampler-ran",
-				fmt.Sprintf("sampler %q decided the trace; the documented selection is %v (key class %s, environment %q, dataset %q, prefix %q)", ran.Target, w.ExpSampler, class.Name, env, dataset, prefix), w)
-			return
-		}
-		if fallback {
-			run.Violation("C14/fields/"+path.String()+"/condition-field-unavailable",
-				fmt.Sprintf("the selected sampler %q ran but its first rule did not match although the trace carries %s=%s (and root.%s): a field it reads was not available", exp.Target, exp.f(), exp.v(), exp.g()), w)
-			return
-		}
-		if exp.Down {
-			if !strings.Contains(out.Key, "kv-"+exp.Tag) {
-				run.Violation("C14/fields/"+path.String()+"/key-span-field-unavailable", fmt.Sprintf("sample key %q lacks the value of %s", out.Key, exp.k()), w)
+		phase(prefix1, "")
+		if cfg != nil && rng.Chance(0.6) {
+			// reload: another DatasetPrefix (for classic keys mostly another non-empty one)
+			// and freshly generated targets / rules, same key, dataset, environment and path
+			prefix2 := verifkit.Pick(rng, c14Prefixes...)
+			for tries := 0; tries < 8 && (prefix2 == prefix1 || (prefix1 != "" && prefix2 == "" && tries < 6)); tries++ {
+				prefix2 = verifkit.Pick(rng, c14Prefixes...)
 			}
-			if !strings.Contains(out.Key, "rv-"+exp.Tag) {
-				run.Violation("C14/fields/"+path.String()+"/key-root-field-unavailable", fmt.Sprintf("sample key %q lacks the value of root.%s", out.Key, exp.r()), w)
-			}
+			phase(prefix2, "/after-reload")
 		}
 	})
 }
